@@ -44,6 +44,17 @@ def recipe(c: Check):
             if dist.get(k, 0) <= 0:
                 c.broken.append(dict(kind="coverage", name="pool driver never performed %s" % k, detail=str(dist)))
     st2 = c.run_driver("handoff", q(c.tier, 24, 120), shards=1)
+    st3 = c.run_driver("visitor", q(c.tier, 40, 400), shards=q(c.tier, 1, 4))
+    vcnt = c.cov.get("coq_counters", {}).get("visitor", {})
+    if st3:
+        if vcnt.get("VMON", 0) != 0:
+            c.failures.append(dict(key="monitor:visitor", driver="visitor",
+                                   what="C11_holds fails on %d observed visitor-listener trace(s)" % vcnt.get("VMON"),
+                                   case="see mismatches of C11_holds in the visitor case shard"))
+        d3 = st3.get("distribution", {})
+        for k in ("listener-full", "stcp-held", "stcp-running", "fate1", "fate2"):
+            if d3.get(k, 0) <= 0:
+                c.broken.append(dict(kind="coverage", name="visitor driver never reached %s" % k, detail=str(d3)))
     return c.finish(
         rule="pool driver: one scripted client session per case against an in-process frps (userConnTimeout=1 s, maxPoolCount 1/2/3/5, "
              "Login.PoolCount from -100 to 50, two tcp proxies); one action at a time (offer a work connection, open a user connection "
@@ -52,6 +63,8 @@ def recipe(c: Check):
              "same thread programs and schedule: ReqWorkConn received so far and len(workConnCh) at every checkpoint, StartWorkConn "
              "contents per socket, final fate of every work and user socket; bytes are sent both ways over every bridged pair. "
              "handoff driver: real vhost.Muxer / TCPGroup / TCPMuxGroup with the receiving listener closed between lookup and send. "
+             "visitor driver: real InternalListener under random orders of PutConn/Close/Accept (incl. the 128-slot queue overflowing), and a "
+             "real STCPProxy + visitor.Manager whose real accept goroutine runs before the queueing or only after pxy.Close(). "
              "distinct = distinct case text; every case is non-trivial (at least one connection arrives)",
         assumptions=["one channel operation / one critical section is atomic (Go memory model); the scheduler is otherwise arbitrary",
                      "wall-clock bound of userConnTimeout observed with tolerance (+1.5 s), not proved",
